@@ -466,7 +466,7 @@ def reevaluation(prog, mn, ys, cs):
                 rows = Arr('this.' + cs)
             n += 1
             a_el, r_el = arg[0].read((k,)), rows.read((idx, k))
-            if any('@loop' in str(x_) or '@entry' in str(x_) for x_ in (a_el, r_el)):
+            if any('@loop' in str(x_) or '@entry' in str(x_) or '[' in str(x_) for x_ in (a_el, r_el)):
                 return None
             if not is_zero(sp.simplify(a_el - r_el)):
                 bad.append('line %s: the stored value y[%s] is the objective at %s (element k: %s) but row %s of the simplex is %s there'
